@@ -78,8 +78,11 @@ func (a *FuncAn) untrackedNear(b *ssa.BasicBlock, g Lin) (string, bool) {
 				v = ex.Tuple
 			}
 			if c, ok := v.(*ssa.Call); ok {
-				if callee := c.Call.StaticCallee(); callee != nil && a.E.InModule(callee) && len(a.decidedCases(c)) == 0 {
-					return "the value returned by " + FuncShort(callee) + ", known only as a range (the facts about " + g.t[0].a.Name + " are relative to it)", true
+				// … for a pure function of scalar arguments (a bit set's `size()`): which of its branches is taken
+				// depends on bit tests of the argument, which a linear domain cannot express. (A function that counts
+				// or measures an object is different: relations to it are the business of the summaries and lemmas.)
+				if callee := c.Call.StaticCallee(); callee != nil && a.E.InModule(callee) && a.E.pureFunc(callee, 0) && len(a.decidedCases(c)) == 0 {
+					return "the value returned by " + FuncShort(callee) + ", a branching function of the bits of its argument, known only as a range (the facts about " + g.t[0].a.Name + " are relative to it)", true
 				}
 			}
 		}
@@ -154,6 +157,9 @@ func (a *FuncAn) untrackedAtom(at *Atom) (string, bool) {
 				if r.ValParam == nil && !(r.HasLo && r.HasHi) {
 					exact = false
 				}
+			}
+			if !exact && a.E.CountSummaryOf(callee) != nil {
+				exact = true // a counting function: related to the counted object by the paired-count lemma
 			}
 			if !exact {
 				return "the value returned by " + FuncShort(callee) + ", which no summary describes", true
